@@ -483,6 +483,16 @@ static void runProgram(const Prog &P)
 		for (char &c : err) if (c == '\n' || c == '\r') c = ' ';
 		if (err.size() > 300) err.resize(300);
 	}
+	{
+		// the oracle's own classification of the default nodes (compared with the model's by the check)
+		std::vector<OV> dfl0; collectDefaults(P.body, dfl0);
+		if (!dfl0.empty() && dfl0.size() <= 60) {
+			Taint T; std::vector<bool> loopy = T.classify(P.body, dfl0.size());
+			std::cout << P.id << " - OD ";
+			for (size_t j = 0; j < loopy.size(); j++) std::cout << (j ? "," : "") << j << ":" << (loopy[j] ? "loopy" : "final");
+			std::cout << "\n";
+		}
+	}
 	for (size_t k = 0; k < nv; k++) {
 		if (!err.empty() && ((raw[k].empty() && !hasDefaults(P.body)) || post[k].empty())) std::cout << P.id << " " << k << " IX EXCEPTION " << err << "\n";
 		if (!raw[k].empty()) std::cout << P.id << " " << k << " IR " << raw[k] << "\n";
